@@ -73,7 +73,10 @@ class ModuleVisitor(extensions.ModuleVisitorExt):
         except KeyError:
             # Inner functions are ignored.
             return
-        assert isinstance(func, (model.Function, model.Attribute))
+        if not isinstance(func, (model.Function, model.Attribute)):
+            # The definition did not create an object of its own (a property setter or deleter for instance)
+            # and the name is bound to something else, like a class.
+            return
         getDeprecated(func, node.decorator_list)
 
 _incremental_Version_signature = inspect.signature(Version)
